@@ -181,31 +181,34 @@ func (e *executableWorkflow) Execute(ctx context.Context, serializedInput any) (
 		}
 		l.runningSteps[stepID] = runningStep
 	}
-	l.lock.Unlock()
 	// Let's make sure we are closing all steps once this function terminates so we don't leave stuff running.
 	defer l.terminateAllSteps()
 
 	// We remove the input node from the DAG and call the notifySteps function once to trigger the workflow
-	// start.
-	e.logger.Debugf("Starting workflow execution...\n%s", l.dag.Mermaid())
-	inputNode, err := l.dag.GetNodeByID(WorkflowInputKey)
-	if err != nil {
-		return "", nil, fmt.Errorf("bug: cannot obtain input node (%w)", err)
-	}
-	if err := l.dag.PushStartingNodes(); err != nil {
-		return "", nil, fmt.Errorf("failed to setup starting nodes in DAG (%w)", err)
-	}
-	if err := inputNode.ResolveNode(dgraph.Resolved); err != nil {
-		return "", nil, fmt.Errorf("failed to resolve input node in DAG (%w)", err)
-	}
-
-	func() {
+	// start. The lock taken before launching the steps is held until that is done: a step that reports a
+	// stage change before the workflow has been started would otherwise find no ready nodes and no running
+	// steps, and the deadlock check would terminate a workflow that has not even begun.
+	err = func() error {
 		// Defer to ensure that if it crashes, it properly unlocks
 		// This is to prevent a deadlock.
-		l.lock.Lock()
 		defer l.lock.Unlock()
+		e.logger.Debugf("Starting workflow execution...\n%s", l.dag.Mermaid())
+		inputNode, err := l.dag.GetNodeByID(WorkflowInputKey)
+		if err != nil {
+			return fmt.Errorf("bug: cannot obtain input node (%w)", err)
+		}
+		if err := l.dag.PushStartingNodes(); err != nil {
+			return fmt.Errorf("failed to setup starting nodes in DAG (%w)", err)
+		}
+		if err := inputNode.ResolveNode(dgraph.Resolved); err != nil {
+			return fmt.Errorf("failed to resolve input node in DAG (%w)", err)
+		}
 		l.notifySteps()
+		return nil
 	}()
+	if err != nil {
+		return "", nil, err
+	}
 
 	// Now we wait for the workflow results.
 	select {
